@@ -25,6 +25,24 @@ CHECKS = {
              "harness's per-item re-execution of recorded calls (checked by equality against the recorded "
              "whole-call output). Bounded: exhaustive only below the stated text length.",
     ),
+    "C12": dict(
+        level="model_checking",
+        design="DESIGN.md section 4 / C12",
+        technique="TLA+ spec Splicer (reader R, emitter E with force > user > default, read-back/re-emit "
+                  "composition) model-checked with TLC; real get_splicers results, every "
+                  "_push/_pop/_update_top/_create_splicer call of real runs, and per-block supplied-vs-read-back "
+                  "bodies of whole Shroud runs validated against Trace_Splicer by TLC",
+        text="TLC exhausts every splicer file of <= 5 abstract lines (reader contract, outside text ignored) and "
+             "every emitter program of <= 4 (thorough 5) operations x user stores: Read(Emit(U)) returns every "
+             "emitted body and Emit(Read(Emit(U))) = Emit(U). Conformance: abstract files rendered to real files "
+             "and read by the real reader; emitter calls recorded by the probe in real runs; whole runs in which "
+             "bodies are supplied for every block visible in a library's generated files by splicer file, by "
+             "splicer_code, mixed, and on the declaration, then read back from the regenerated files and compared "
+             "line by line (up to indentation / trailing blanks) in TLA+; generated files fed back as splicer files "
+             "must reproduce themselves.",
+        note="Trusted: TLC, the probe, PyYAML round trip of the input, the real get_splicers used to read generated "
+             "files back (itself under test by the reader traces). Known findings are listed in KNOWN_FINDINGS.txt.",
+    ),
 }
 
 ALL = ["C%02d" % i for i in range(1, 19)]
